@@ -138,6 +138,7 @@ CheckCall(e, line) ==
 
 (* one call of the real Transaction.Clean on a crafted change log *)
 CheckClean(e, line) ==
+  IF "err" \in DOMAIN e THEN Bad(line, "retention:commit-refused-or-panicked-while-trimming", "the write succeeds", e.err) ELSE
   LET ref == CleanRef(e.len, e.ages, e.minSize, e.maxSize, e.minAge, e.maxAge) IN
   /\ (e.prefix \/ Bad(line, "retention:not-a-prefix", "oldest events only", e.dropped))
   /\ (EnvelopeOK(e.dropped, e.len, e.ages, e.minSize, e.maxSize, e.minAge, e.maxAge) \/ Bad(line, "retention:envelope", ref, e.dropped))
